@@ -122,6 +122,7 @@ func (d *MsgPipeline) Start(ctx context.Context, msgMeta *module.MsgMetadata, ma
 		d:                  d,
 		rcptModifiersState: make(map[*rcptBlock]module.ModifierState),
 		deliveries:         make(map[module.DeliveryTarget]*delivery),
+		originalRcpts:      make(map[string]string),
 		msgMeta:            msgMeta,
 		log:                target.DeliveryLogger(d.Log, msgMeta),
 	}
@@ -279,6 +280,12 @@ type msgpipelineDelivery struct {
 	deliveries  map[module.DeliveryTarget]*delivery
 	msgMeta     *module.MsgMetadata
 	checkRunner *checkRunner
+
+	// Rewrites done by this pipeline (result -> address passed to AddRcpt),
+	// used to report per-recipient statuses. msgMeta.OriginalRcpts can't be
+	// used for that: it is shared with nested and enclosing pipelines and
+	// their rewrites would be undone here as well.
+	originalRcpts map[string]string
 }
 
 func (dd *msgpipelineDelivery) AddRcpt(ctx context.Context, to string, opts smtp.RcptOptions) error {
@@ -351,6 +358,7 @@ func (dd *msgpipelineDelivery) AddRcpt(ctx context.Context, to string, opts smtp
 
 			if originalTo != to {
 				dd.msgMeta.OriginalRcpts[to] = originalTo
+				dd.originalRcpts[to] = originalTo
 			}
 
 			for _, tgt := range rcptBlock.targets {
@@ -505,7 +513,7 @@ func (dd *msgpipelineDelivery) BodyNonAtomic(ctx context.Context, c module.Statu
 		partDelivery, ok := delivery.Delivery.(module.PartialDelivery)
 		if ok {
 			partDelivery.BodyNonAtomic(ctx, statusCollector{
-				originalRcpts: dd.msgMeta.OriginalRcpts,
+				originalRcpts: dd.originalRcpts,
 				wrapped:       c,
 			}, header, body)
 			continue
